@@ -55,6 +55,8 @@ def _quantify_entity(
     :param quantifier_kwargs: Keyword arguments to pass to the quantifier.
     :return: The quantified entity.
     """
-    if isinstance(entity_, Match) and not entity_.variable:
+    if isinstance(entity_, Match):
+        # also a pattern that was quantified before (resolving it gave it a variable), and one written over a
+        # variable
         entity_ = entity_.expression
     return quantifier(entity_, **quantifier_kwargs)
